@@ -20,7 +20,8 @@ package disk
 
 //@ pred mismatch(a, b) = a > 0 - 1 && b > 0 - 1 && a != b
 //@ pred isEmptyCas(kind, hash, size) = kind == 1 && size <= 0 && hash == "e3b0c44298fc1c149afbf4c8996fb92427ae41e4649b934ca495991b7852b855"
-//@ pred wfCache(c) = c != nil && c.diskWaitSem != nil
+//@ pred wfCache(c) = c != nil && c.diskWaitSem != nil && 0 < c.maxBlobSize && c.maxBlobSize <= B62() && c.zstd != nil
+//@ pred lookupKey(kind, hash) = (kind == 0 ? "ac" : (kind == 1 ? "cas" : "raw")) + "/" + hash
 
 //@ func isSizeMismatch(requestedSize int64, foundSize int64) bool
 //@   serves C02 C10 C12 C18
@@ -48,3 +49,46 @@ package disk
 //@   ensures[C10] miss: !result0 ==> result1 == 0 - 1
 //@   ensures[C05] looked: (len(hash) == 64 && !isEmptyCas(kind, hash, size)) ==> hitN >= old(hitN)
 //@   call Contains#* asserts[C18] proxylimit: c.proxy != nil && size <= c.maxProxyBlobSize
+
+//@ pred isCacheErr(e, code) = e != nil && istype(e, "*cache.Error") && as(e, "*cache.Error").Code == code
+
+//@ func (c *diskCache) commit(key string, legacy bool, tempfile string, reservedSize int64, logicalSize int64, sizeOnDisk int64, random string) (unreserve bool, removeTempfile bool, err error)
+//@   serves C01 C03 C04 C07 C08 C12
+//@   requires wfCache(c) && !locked
+//@   requires[C03] own: 0 <= reservedSize && reservedSize <= held
+//@   requires sizes: 0 <= sizeOnDisk && sizeOnDisk <= B62() && 0 <= logicalSize && logicalSize <= B62()
+//@   modifies lruState(c.lru), held, adopted
+//@   ensures[C07] unlocked: !locked
+//@   ensures[C03] held: held == old(held) - (unreserve ? 0 : reservedSize)
+//@   ensures[C04] adopt: (removeTempfile ==> adopted == old(adopted)) && (!removeTempfile ==> adopted == old(adopted) + 1)
+//@   ensures[C01,C12] result: (err == nil <==> !removeTempfile) && (err == nil ==> !unreserve) && (unreserve ==> reservedSize > 0)
+//@   call Add#* asserts[C01,C04] item: arg1 == key && arg2.size == logicalSize && arg2.sizeOnDisk == sizeOnDisk && arg2.random == random && arg2.legacy == legacy
+//@   call Unreserve#* asserts[C03] amount: arg1 == reservedSize
+
+//@ func (c *diskCache) writeAndCloseFile(ctx context.Context, r io.Reader, kind cache.EntryKind, hash string, size int64, f *os.File) (int64, error)
+//@   serves C01 C08 C14
+//@   requires c != nil && f != nil && r != nil && ctx != nil
+//@   ensures ok: result1 == nil ==> (0 <= result0 && result0 <= B62())
+//@   ensures[C01] rawlen: (result1 == nil && size >= 0 && !(kind == 1 && c.storageMode != 0)) ==> result0 == size
+//@   call WriteAndClose#* asserts[C01] args: arg1 == r && arg2 == f && arg3 == c.storageMode && arg4 == hash && arg5 == size && kind == 1
+//@   call New#* asserts[C01] verifier: arg0 == hash && arg1 == size && kind == 1
+
+//@ func (c *diskCache) Put(ctx context.Context, kind cache.EntryKind, hash string, size int64, r io.Reader) (rErr error)
+//@   serves C01 C03 C04 C07 C08 C12 C18
+//@   requires wfCache(c) && !locked && r != nil && ctx != nil && held >= 0
+//@   modifies lruState(c.lru), held, adopted, tmpOpen, tmpName, tmpRandom, tfc.idum, pxPuts
+//@   ensures[C12] once: pxPuts == old(pxPuts) || pxPuts == old(pxPuts) + 1
+//@   ensures[C12] rejectednotsent: (size > c.maxBlobSize || size < 0 || len(hash) != 64 || c.proxy == nil) ==> pxPuts == old(pxPuts)
+//@   ensures[C07] unlocked: !locked
+//@   ensures[C03] noleak: held == old(held)
+//@   ensures[C04] tmpclean: tmpOpen - adopted == old(tmpOpen) - old(adopted)
+//@   ensures[C18] toolarge: size > c.maxBlobSize ==> (isCacheErr(rErr, 400) && adopted == old(adopted) && tmpOpen == old(tmpOpen))
+//@   ensures[C01] negative: size < 0 ==> isCacheErr(rErr, 400)
+//@   ensures[C01] badhash: len(hash) != 64 ==> isCacheErr(rErr, 400)
+//@   ensures[C01] errclass: rErr != nil ==> istype(rErr, "*cache.Error")
+//@   ensures[C01,C04] failed: rErr != nil ==> adopted == old(adopted)
+//@   ensures[C01] stored: rErr == nil ==> (0 <= size && size <= c.maxBlobSize && len(hash) == 64 && (isEmptyCas(kind, hash, size) || adopted == old(adopted) + 1))
+//@   call Reserve#* asserts[C05] logical: arg1 == size
+//@   call writeAndCloseFile#* asserts[C01] declared: arg2 == r && arg3 == kind && arg4 == hash && arg5 == size && fileName(ref(arg6)) == tmpName && tmpOpen == old(tmpOpen) + 1
+//@   call commit#* asserts[C01,C04,C08] committed: arg1 == lookupKey(kind, hash) && arg3 == tmpName && arg4 == size && arg5 == size && arg7 == tmpRandom
+//@   call Put#* asserts[C12] writethrough: arg2 == kind && arg3 == hash && arg4 == size
